@@ -2,7 +2,7 @@
 from checks import corecheck as K, coregen as G
 
 PID = "C03"
-PINNED = ["wildcard_always_matches", "id_always_matches_and_binds", "typed_id_matches_iff_hint",
+PINNED = ["wildcard_always_matches", "typed_wildcard_matches_iff_hint", "id_always_matches_and_binds", "typed_id_matches_iff_hint",
           "literal_matches_by_equality", "tuple_pattern_needs_equal_size", "rest_pattern_needs_enough",
           "unsized_subject_never_matches_sequence_pattern", "map_pattern_on_non_map_is_no_match",
           "match_without_arms_is_null", "unpack_missing_is_null", "unpack_extras_ignored"]
